@@ -174,7 +174,44 @@ func (C06) Name() string { return "C06" }
 func checkMembership(w *World, contact *flows.Contact, sa flows.SessionAssets, env1, env2 envs.Environment, where string, statusBefore string) {
 	var cj gen.J
 	var fieldTypes map[string]string
-	for _, g := range sa.Groups().All() {
+	// which query-based groups exist is read from the asset document the assets were loaded from, not
+	// from the loaded assets' own list (which execution must not have changed)
+	var groupList []*flows.Group
+	if wsa, ok := sa.(*SA); ok && wsa.View != nil {
+		doc := wsa.View.v().doc
+		gs, _ := doc["groups"].([]any)
+		for _, x := range gs {
+			gm, _ := x.(gen.J)
+			if gm == nil {
+				if m2, ok := x.(map[string]any); ok {
+					gm = m2
+				}
+			}
+			u, _ := gm["uuid"].(string)
+			if q, _ := gm["query"].(string); q == "" || u == "" {
+				continue
+			}
+			g := sa.Groups().Get(assets.GroupUUID(u))
+			if g == nil {
+				w.probe("c06_query_group_not_loaded") // its query does not parse under the environment the assets were loaded with
+				continue
+			}
+			groupList = append(groupList, g)
+		}
+		listed := map[assets.GroupUUID]int{}
+		for _, g := range sa.Groups().All() {
+			listed[g.UUID()]++
+		}
+		for _, g := range groupList {
+			if listed[g.UUID()] != 1 {
+				w.Violate("C06", "assets", "C06.query-group-lost", fmt.Sprintf("after %s the loaded assets list the query-based group %q %d times (they were loaded with it once): it is no longer re-evaluated", where, g.Name(), listed[g.UUID()]))
+				return
+			}
+		}
+	} else {
+		groupList = sa.Groups().All()
+	}
+	for _, g := range groupList {
 		if !g.UsesQuery() {
 			continue
 		}
